@@ -5,7 +5,7 @@ from concurrent.futures import ProcessPoolExecutor
 
 import lib
 
-HEADER_LISTS = [None, ["=", "-", "~"], ["~", "+", "="], ["*", "#", "^"]]
+HEADER_LISTS = [None, ["=", "-", "~"], ["~", "+", "="], ["*", "#", "^"], ["=", "=", "-"], ["x", "=", "="]]   # incl. repeated and non-punctuation characters
 
 
 def render_line(l, hchar, hlist=None):
